@@ -23,7 +23,7 @@ def levelIsValid (l : Int) : Bool := 0 ≤ l && l < Gen.RMQR.c_levelMax
 
 /-- the pinned source bounds and prices a kanji segment by its BYTE length; a repaired source
 counts characters -/
-def KANJI_COUNTS_BYTES : Bool := true
+def KANJI_COUNTS_BYTES : Bool := false
 
 /-- Go: `(*Segment).length(version, level) (int, bool)` -/
 def segLength (s : Segment) (version level : Int) : Out (Option Nat) :=
